@@ -15,6 +15,7 @@ from .common import *
 from ..convsum import convert_summary
 from ..gram import Grammar, alphabet
 from ..interp import Interp
+from ..karr import State
 
 MEMBERS = ["StorageType.RAM", "StorageType.DISK", "StorageType.WORK", "StorageType.NONE"]
 CKPT = {"StorageType.RAM", "StorageType.DISK"}
@@ -27,8 +28,10 @@ def evaluate(repo, cname, member, entry):
     st.enum_set(p, member)
     it = Interp(f, entry=st, finalize_havoc=False)
     it.DEFAULT_PART = ()
+    it.exact_minmax = True
     it.run()
     res = set()
+    evaluate.last_states = []
     for o in it.outcomes:
         if o.state.bottom and o.kind != "raise":
             continue
@@ -40,6 +43,7 @@ def evaluate(repo, cname, member, entry):
             v = o.what
             if isinstance(v, Tok):
                 res.add(("value", v.v))
+                evaluate.last_states.append((v.v, o.state))
             else:
                 res.add(("value", "?"))
     return rel, c, f, res
@@ -137,16 +141,40 @@ def run(chk, ctx):
                                rel=rel, node=f)
                 else:
                     chk.decide("C11.TOTAL", cons, True, f"returns {sorted(x[1] for x in res)}", rel=rel, node=f)
-        # ---- COVER
+        # ---- COVER: exact evaluation.  The constructor chain is evaluated with exact min/max case
+        # splits (straight-line code over linear terms: each partition describes concrete states
+        # exactly); for every partition and every label the class can emit, the query must return
+        # True whenever the emission condition of the label holds.
         family = any(c.name == "RevolveCheckpointSchedule" for _, c in repo.mro(cname))
-        for st, cfg in split:
-            ctext = "{" + ", ".join(f"{k}={v}" for k, v in cfg.items()) + "}" if cfg else ""
-            if st.enum_is("self._max_n", "None") == "yes" and not all(
-                    e.enum_is("self._max_n", "None") == "yes" for e in entries):
-                continue   # offline class constructed with max_n=None: no stream at all
-            labels = {}
+        relc, cc, init = repo.resolve_method(cname, "__init__")
+        params = [a.arg for a in init.args.args[1:]] + [a.arg for a in init.args.kwonlyargs]
+        unit_params = [p for p in params if p in ("snapshots", "snapshots_in_ram", "snapshots_on_disk", "binomial_snapshots")]
+        base_entry = State()
+        for p in params:
+            if p in ("max_n", "period"):
+                base_entry.add_ineq(Lin.sym(p) - ONE)
+                base_entry.enum_meet(p, "notin", ["None"])
+            elif p in unit_params:
+                base_entry.add_ineq(Lin.sym(p) - (ONE if p == "snapshots_in_ram" and family else Lin.const(0)))
+                base_entry.enum_meet(p, "notin", ["None"])
+        sparams = [p for p in params if p in ("storage", "binomial_storage")]
+        variants = [(base_entry, {})]
+        for p in sparams:
+            variants = [(e, dict(c, **{p: v})) for e, c in variants for v in ("StorageType.RAM", "StorageType.DISK")]
+        for entry0, pcfg in variants:
+            entry = entry0.copy()
+            for p, v in pcfg.items():
+                entry.enum_set(p, v)
+            try:
+                _, _, _, it = model.init_run(cname, entry=entry, exact=True)
+            except Exception as e:       # outside the exact fragment: fall back to inconclusive
+                chk.decide("C11.COVER", base + "#exact-constructor", None, f"constructor not evaluable exactly: {e}", rel=relc, node=init)
+                continue
+            ends = [o.state for o in it.outcomes if o.kind in ("end", "return") and not o.state.bottom]
+            ctext = "{" + ", ".join(f"{k}={v.split('.')[-1]}" for k, v in pcfg.items()) + "}" if pcfg else ""
+            # attribute valuation implied by the parameter choice (for label resolution)
+            labels = {}      # label -> (evidence, emission condition as list of Lin >= 0 over params/attrs)
             if family:
-                relc, cc, init = repo.resolve_method(cname, "__init__")
                 entry_fn = None
                 for n in ast.walk(init):
                     if isinstance(n, ast.Call) and isinstance(n.func, ast.Name) and n.func.id in g.liveness.entries:
@@ -163,51 +191,102 @@ def run(chk, ctx):
                     if not (op.startswith("Read") or op.startswith("Write")) or op.startswith("Write_Forward"):
                         continue
                     for t in sv & CKPT:
-                        labels.setdefault(t, f"operation {op} of {entry_fn}")
+                        cond = []
+                        if t == "StorageType.DISK" and "snapshots_on_disk" in params:
+                            # DISK operations are generated only if disk slots are available (assumed; the
+                            # DP tables keep the sequence disk-free otherwise - not decided here).  The slot
+                            # count that matters is the one handed to the sequence builder.
+                            crs = [c for c in it.calls if c.name == entry_fn]
+                            slots = None
+                            if crs and len(crs[0].args) > 1 and isinstance(crs[0].args[1], tuple) and len(crs[0].args[1]) == 2 \
+                                    and is_lin(crs[0].args[1][1]):
+                                slots = crs[0].args[1][1]
+                            if slots is None:
+                                chk.decide("C11.COVER", base + "#disk-slots", None,
+                                           "cannot identify the disk slot count passed to the sequence builder", rel=relc, node=init)
+                                continue
+                            cond = [slots - ONE]
+                        labels.setdefault(t, (f"operation {op} of {entry_fn}", cond))
             else:
+                online = all(e.enum_is("self._max_n", "None") == "yes" for e in entries)
                 for r in runs:
-                    if all(r.config.get(k, v) == v for k, v in cfg.items()):
-                        # attributes not split by the run keep their value sets: restrict by cfg
-                        for rec in r.interp.yields:
-                            vals = []
-                            if rec.kind == "Forward":
-                                vals.append(rec.arg(4, "storage"))
-                            elif rec.kind in ("Copy", "Move"):
-                                vals += [rec.arg(1, "from_storage"), rec.arg(2, "to_storage")]
-                            for v in vals:
-                                s = pure_sym(v)
-                                if s in cfg:
-                                    sv = {cfg[s]}
-                                else:
-                                    sv = storage_values(rec.state, v)
-                                if sv is None and isinstance(v, Val) and v.kind == "label":
+                    for rec in r.interp.yields:
+                        vals = []
+                        if rec.kind == "Forward":
+                            vals.append(rec.arg(4, "storage"))
+                        elif rec.kind in ("Copy", "Move"):
+                            vals += [rec.arg(1, "from_storage"), rec.arg(2, "to_storage")]
+                        pre_ef = rec.state.enum_single("$ef") == "0"
+                        for v in vals:
+                            if is_lin(v) and any(rec.state.entails_eq(v - Lin.sym(a)) == "yes" for a in r.interp.label_atoms):
+                                continue       # label table: decided below
+                            a = alias_attr(rec.state, v) if is_lin(v) else None
+                            if a is not None:
+                                key = ("attr", a)
+                            else:
+                                sv = storage_values(rec.state, v)
+                                if not sv:
                                     continue
-                                for t in (sv or set()) & CKPT:
-                                    labels.setdefault(t, f"{rec.yid} line {rec.node.lineno}")
-            for t, why in sorted(labels.items()):
-                st2 = st.copy()
-                note = ""
-                if family and t == "StorageType.DISK":
-                    # the Revolve family emits DISK operations only if disk checkpoints are available
-                    if st2.enum_is("self._snapshots_on_disk", "None") != "yes":
-                        if st2.entails_eq(Lin.sym("self._snapshots_on_disk")) == "yes":
-                            chk.note(f"{cname}: zero disk units declared; that no DISK operation is generated then is not decided (depends on table values)")
+                                key = ("toks", frozenset(sv & CKPT))
+                            uncond = online and pre_ef and rec.kind == "Forward"
+                            cur = labels.get(key)
+                            if cur is None or (uncond and cur[1]):
+                                labels[key] = (f"{rec.yid} line {rec.node.lineno}", [] if uncond else "units")
+            for st in ends:
+                for key, (why, cond) in sorted(labels.items(), key=lambda kv: repr(kv[0])):
+                    # resolve the label to tokens in this partition
+                    if isinstance(key, tuple) and key[0] == "attr":
+                        e = st.enum_get(key[1])
+                        toks = set(e[1]) & CKPT if e and e[0] == "in" else None
+                        if toks is None or len(toks) != 1:
+                            chk.decide("C11.COVER", base + f"#cover({key[1]}){ctext}", None,
+                                       f"storage attribute {key[1]} not determined in the constructor partition", rel=relc, node=init)
                             continue
-                        st2.add_ineq(Lin.sym("self._snapshots_on_disk") - ONE)
-                        note = " (assuming at least one disk unit: with zero units the DP tables keep the sequence disk-free, not decided here)"
-                rel, c, f, res = evaluate(repo, cname, t, st2)
-                cons = f"{base}#cover({t.split('.')[1]}){ctext}"
-                vals = {r for r in res}
-                if vals == {("value", "True")}:
-                    chk.decide("C11.COVER", cons, True, f"{t} emitted by {why}; query returns True{note}", rel=rel, node=f)
-                elif ("value", "?") in vals and len(vals) == 1:
-                    chk.decide("C11.COVER", cons, None, f"{t} emitted by {why}; query value undetermined", rel=rel, node=f)
-                else:
-                    bad = sorted(f"{k}:{v}" for k, v in vals if (k, v) != ("value", "True"))
-                    definite = ("value", "True") not in vals and ("value", "?") not in vals
-                    chk.decide("C11.COVER", cons, False if definite else None,
-                               f"{cname}{ctext} emits {t} ({why}) but uses_storage_type({t}) gives {bad}{note}",
-                               rel=rel, node=f)
+                    elif isinstance(key, tuple) and key[0] == "toks":
+                        toks = set(key[1])
+                    else:
+                        toks = {key}
+                    for t in sorted(toks):
+                        st2 = st.copy()
+                        if cond == "units":
+                            # reversal-time / offline writes need at least one checkpoint unit
+                            tot = Lin.const(0)
+                            for a in sorted(x for x in st2.symbols() | set(st2.enums) if x.startswith("self._")
+                                            and x[6:] in ("snapshots", "snapshots_in_ram", "snapshots_on_disk", "binomial_snapshots")):
+                                tot = tot + Lin.sym(a)
+                            if tot.t:
+                                st2.add_ineq(tot - ONE)
+                        else:
+                            for q in cond:
+                                st2.add_ineq(q)
+                        if st2.bottom or st2.infeasible():
+                            continue
+                        rel, c, f, res = evaluate(repo, cname, t, st2)
+                        cons = f"{base}#cover({t.split('.')[1]}){ctext}"
+                        if res == {("value", "True")}:
+                            chk.decide("C11.COVER", cons, True, f"{t} emitted ({why}); query returns True", rel=rel, node=f)
+                        else:
+                            bad = sorted(f"{k}:{v}" for k, v in res if (k, v) != ("value", "True"))
+                            definite = ("value", "?") not in res and any(k == "raise" or v in ("False", "None") for k, v in res)
+                            if definite and family and t == "StorageType.DISK":
+                                # the op alphabet only says DISK *may* be used; it certainly is when there are very many
+                                # steps and few RAM units.  The verdict is definite only if the refuting constructor
+                                # state contains such instances (otherwise a sound precision refinement could be meant).
+                                feasible = False
+                                for val, ost in getattr(evaluate, "last_states", []):
+                                    if val == "True":
+                                        continue
+                                    probe = ost.copy()
+                                    probe.add_ineq(M - Lin.const(10 ** 6))
+                                    probe.add_ineq(Lin.const(10) - Lin.sym("self._snapshots_in_ram"))
+                                    if not (probe.bottom or probe.infeasible()):
+                                        feasible = True
+                                if not feasible and not any(k == "raise" for k, v in res):
+                                    definite = False
+                            facts = ", ".join(sorted(repr(i) for i in st2.ineq if any(x.startswith("self.") or x in params for x in i.t))[:4])
+                            chk.decide("C11.COVER", cons, False if definite else None,
+                                       f"{cname}{ctext} emits {t} ({why}) but uses_storage_type({t}) gives {bad} in a reachable "
+                                       f"constructor state ({facts})", rel=rel, node=f)
         # ---- Multistage-style label tables: counts reported are counts of the label tuple
         for r in runs:
             # label tables: per-instance tables whose entries flow into storage arguments of actions
